@@ -48,7 +48,24 @@ def run(ctx):
     it = lp.iter
     if isinstance(it, ast.Name) and len(asg.get(it.id, [])) == 1:
         it = asg[it.id][0].value
-    if isinstance(it, ast.Call) and dotted(it.func) == "sorted" and not it.keywords:
+    inplace = False
+    if isinstance(lp.iter, ast.Name):
+        # L.sort() (default order) dominating the loop, L not rebuilt in between
+        pcfg = A.cfg(pi)
+        sorts = [n for c in calls_in(pi.node) if isinstance(c.func, ast.Attribute)
+                 and c.func.attr == "sort" and dotted(c.func.value) == lp.iter.id
+                 and not c.args and not c.keywords for n in pcfg.owners(c)]
+        heads = pcfg.nodes_of(lp)
+        writers = [n for st_ in asg.get(lp.iter.id, []) for n in pcfg.nodes_of(st_)]
+        muts = [n for c in calls_in(pi.node) if isinstance(c.func, ast.Attribute)
+                and c.func.attr in ("append", "extend", "insert", "reverse")
+                and dotted(c.func.value) == lp.iter.id for n in pcfg.owners(c)]
+        for sn in sorts:
+            if all(pcfg.dominates(sn, h) for h in heads) and not any(
+                    pcfg.path_exists(sn, w) and any(pcfg.path_exists(w, h) for h in heads)
+                    and w is not sn for w in writers + muts if not pcfg.dominates(w, sn)):
+                inplace = True
+    if inplace or (isinstance(it, ast.Call) and dotted(it.func) == "sorted" and not it.keywords):
         ctx.ok("C04.R1", "process_iter:sorted", sample=norm_stmt(it)[:70])
     else:
         ctx.fail("C04.R1", "process_iter:sorted", pi.file, lp.lineno, pi.qual,
